@@ -2,7 +2,7 @@
 # Builds everything the checks need, offline, from files on disk.
 set -e
 cd "$(dirname "$0")"
-export CARGO_NET_OFFLINE=true CARGO_TARGET_DIR=/verif/.build/target RUSTFLAGS="--cfg kismet_verif"
+export CARGO_NET_OFFLINE=true CARGO_TARGET_DIR="$(pwd)/.build/target" RUSTFLAGS="--cfg kismet_verif"
 mkdir -p .build evidence replays ocaml/gen
 [ -f tools/gen_constants.py ] && python3 tools/gen_constants.py || true
 (cd coq && coq_makefile -f _CoqProject -o Makefile >/dev/null && timeout 7200 make -j16)
